@@ -267,6 +267,10 @@ def role_ok(s, h):
     if k == "if":
         if vb == "withdraw":
             return snd == 2
+        if vb == "shutdown" and snd == 3:
+            # the fund accepts ShutdownVamms from its own address; no contract code ever sends it (a contract
+            # only sends what its code emits), so this sender is outside the property (DESIGN section 6)
+            return None
         return str(snd) == o.get("if.owner")
     if k == "fp":
         return str(snd) == o.get("fp.owner")
